@@ -19,7 +19,16 @@
    On a port shared by several services the server itself waits for the client's first bytes
    (phase "routing": findService peeks for the payload detectors) before a service handles the
    connection; a peer that is silent or goes away there is subject to the same idle timeout.
-   Model regression only: "peek_without_deadline" - the wait for the first bytes never expires.      *)
+   Model regression only: "peek_without_deadline" - the wait for the first bytes never expires.
+   A service may wait on a SECOND connection opened on the first one's behalf (ftp data
+   connections, passive or active): phase "transfer".  While it does, the control connection's
+   idle timeout is not consulted (nothing reads it); the data connection has its own idle
+   deadline (didle), after which the transfer fails and the handler reads the control
+   connection again.  "transfer_without_deadline" (the code as found): the data connection has
+   none, a peer that opens it and stays silent keeps the handler forever.
+   "editor_spins" (the code as found, telnet and ssh line editors): after a particular input
+   (an escape sequence longer than the editor's buffer) the handler never notices anything
+   again - not the peer leaving, not the idle timeout.                                                *)
 EXTENDS Integers, Sequences, FiniteSets, TLC
 
 CONSTANTS Conns, Deviations, IdleTimeout
@@ -27,23 +36,26 @@ CONSTANTS Conns, Deviations, IdleTimeout
 VARIABLES procAlive, phase, res,
           idle,        \* idle[c]: time since connection c last sent something, capped at IdleTimeout
           quiet,       \* quiet[c]: the client has decided to send nothing more (it stays connected)
-          panics
-vars == <<procAlive, phase, res, idle, quiet, panics>>
+          panics,
+          didle,       \* didle[c]: time since the data connection of c last carried something (phase "transfer")
+          deaf         \* deaf[c]: the handler has stopped looking at its connection ("editor_spins")
+vars == <<procAlive, phase, res, idle, quiet, panics, didle, deaf>>
 
 Kinds == {"handler", "helper", "listener", "fd"}
 Init == /\ procAlive = TRUE /\ phase = [c \in Conns |-> "idle"] /\ res = [c \in Conns |-> {}]
         /\ idle = [c \in Conns |-> 0] /\ quiet = [c \in Conns |-> FALSE] /\ panics = 0
+        /\ didle = [c \in Conns |-> 0] /\ deaf = [c \in Conns |-> FALSE]
 
 Open(c) == /\ procAlive /\ phase[c] = "idle"
            /\ \E ph \in {"routing", "handling"} : phase' = [phase EXCEPT ![c] = ph]
            /\ res' = [res EXCEPT ![c] = {"handler", "fd"}]
            /\ idle' = [idle EXCEPT ![c] = 0]
-           /\ UNCHANGED <<procAlive, quiet, panics>>
+           /\ UNCHANGED <<procAlive, quiet, panics, didle, deaf>>
 
 \* the client sends something; the service may acquire helpers for the connection
-GoQuiet(c) == /\ phase[c] \in {"routing", "handling"} /\ ~quiet[c]
+GoQuiet(c) == /\ phase[c] \in {"routing", "handling", "transfer"} /\ ~quiet[c]
               /\ quiet' = [quiet EXCEPT ![c] = TRUE]
-              /\ UNCHANGED <<procAlive, phase, res, idle, panics>>
+              /\ UNCHANGED <<procAlive, phase, res, idle, panics, didle, deaf>>
 
 Input(c) == /\ procAlive /\ phase[c] \in {"routing", "handling"} /\ ~quiet[c]
             /\ idle' = [idle EXCEPT ![c] = 0]
@@ -53,7 +65,29 @@ Input(c) == /\ procAlive /\ phase[c] \in {"routing", "handling"} /\ ~quiet[c]
                       \/ phase' = [phase EXCEPT ![c] = "returned"] /\ res' = [res EXCEPT ![c] = {}]
                  ELSE /\ \E extra \in SUBSET {"helper", "listener"} : res' = [res EXCEPT ![c] = @ \cup extra]
                       /\ UNCHANGED phase
-            /\ UNCHANGED <<procAlive, quiet, panics>>
+            /\ deaf' = [deaf EXCEPT ![c] = @ \/ (phase[c] = "handling" /\ "editor_spins" \in Deviations)]
+            /\ UNCHANGED <<procAlive, quiet, panics, didle>>
+
+\* the client has a data connection opened and asks for a transfer: the handler now waits on that connection
+StartTransfer(c) == /\ procAlive /\ phase[c] = "handling" /\ ~quiet[c] /\ ~deaf[c]
+                    /\ phase' = [phase EXCEPT ![c] = "transfer"]
+                    /\ res' = [res EXCEPT ![c] = @ \cup {"datafd"}]
+                    /\ didle' = [didle EXCEPT ![c] = 0]
+                    /\ UNCHANGED <<procAlive, idle, quiet, panics, deaf>>
+\* data moves
+DataInput(c) == /\ phase[c] = "transfer" /\ ~quiet[c]
+                /\ didle' = [didle EXCEPT ![c] = 0]
+                /\ UNCHANGED <<procAlive, phase, res, idle, quiet, panics, deaf>>
+\* the transfer ends (complete, the peer closed the data connection, or it stayed idle for too long): the data connection is
+\* released and the handler reads the control connection again, whose idle time starts anew
+EndTransfer(c) == /\ phase' = [phase EXCEPT ![c] = "handling"]
+                  /\ res' = [res EXCEPT ![c] = @ \ {"datafd"}]
+                  /\ idle' = [idle EXCEPT ![c] = 0]
+                  /\ UNCHANGED <<procAlive, quiet, panics, didle, deaf>>
+DataDone(c) == phase[c] = "transfer" /\ ~quiet[c] /\ EndTransfer(c)
+DataIdleExpire(c) == /\ phase[c] = "transfer" /\ didle[c] >= IdleTimeout
+                     /\ "transfer_without_deadline" \notin Deviations
+                     /\ EndTransfer(c)
 
 \* a failure while handling: confined to the connection
 Panic(c) == /\ procAlive /\ phase[c] \in {"handling", "peergone"}
@@ -61,34 +95,38 @@ Panic(c) == /\ procAlive /\ phase[c] \in {"handling", "peergone"}
                  THEN procAlive' = FALSE /\ UNCHANGED <<phase, res, panics>>
                  ELSE /\ phase' = [phase EXCEPT ![c] = "returned"] /\ res' = [res EXCEPT ![c] = {}]
                       /\ panics' = panics + 1 /\ UNCHANGED procAlive
-            /\ UNCHANGED <<idle, quiet>>
+            /\ UNCHANGED <<idle, quiet, didle, deaf>>
 
-PeerGone(c) == /\ phase[c] \in {"routing", "handling"}
+PeerGone(c) == /\ phase[c] \in {"routing", "handling", "transfer"}     \* (in a transfer: the peer closes both connections)
                /\ phase' = [phase EXCEPT ![c] = "peergone"]
-               /\ UNCHANGED <<procAlive, res, idle, quiet, panics>>
+               /\ UNCHANGED <<procAlive, res, idle, quiet, panics, didle, deaf>>
 
 \* time passes for every connection that is waiting for its peer
 Waiting(c) == phase[c] \in {"routing", "handling"}
-Tick == /\ \E c \in Conns : Waiting(c) /\ idle[c] < IdleTimeout
+Moving(c) == phase[c] = "transfer"
+Tick == /\ \E c \in Conns : (Waiting(c) /\ idle[c] < IdleTimeout) \/ (Moving(c) /\ didle[c] < IdleTimeout)
         /\ idle' = [c \in Conns |-> IF Waiting(c) /\ idle[c] < IdleTimeout THEN idle[c] + 1 ELSE idle[c]]
-        /\ UNCHANGED <<procAlive, phase, res, quiet, panics>>
+        /\ didle' = [c \in Conns |-> IF Moving(c) /\ didle[c] < IdleTimeout THEN didle[c] + 1 ELSE didle[c]]
+        /\ UNCHANGED <<procAlive, phase, res, quiet, panics, deaf>>
 
 \* a silent peer is gone once the idle timeout has passed
 IdleExpire(c) == /\ phase[c] \in {"routing", "handling"} /\ idle[c] >= IdleTimeout
                  /\ ~(phase[c] = "routing" /\ "peek_without_deadline" \in Deviations)
+                 /\ ~deaf[c]
                  /\ phase' = [phase EXCEPT ![c] = "peergone"]
-                 /\ UNCHANGED <<procAlive, res, idle, quiet, panics>>
+                 /\ UNCHANGED <<procAlive, res, idle, quiet, panics, didle, deaf>>
 
 Leftovers(c) == (IF "helper_never_exits" \in Deviations THEN res[c] \cap {"helper"} ELSE {})
                 \cup (IF "listener_never_closed" \in Deviations THEN res[c] \cap {"listener"} ELSE {})
-Return(c) == /\ procAlive /\ phase[c] = "peergone" /\ "never_eof" \notin Deviations
+Return(c) == /\ procAlive /\ phase[c] = "peergone" /\ "never_eof" \notin Deviations /\ ~deaf[c]
              /\ phase' = [phase EXCEPT ![c] = "returned"]
              /\ res' = [res EXCEPT ![c] = Leftovers(c)]
-             /\ UNCHANGED <<procAlive, idle, quiet, panics>>
+             /\ UNCHANGED <<procAlive, idle, quiet, panics, didle, deaf>>
 
 Next == \E c \in Conns : Open(c) \/ GoQuiet(c) \/ Input(c) \/ Panic(c) \/ PeerGone(c) \/ IdleExpire(c) \/ Return(c)
+                         \/ StartTransfer(c) \/ DataInput(c) \/ DataDone(c) \/ DataIdleExpire(c)
         \/ Tick
-Fair == \A c \in Conns : WF_vars(Return(c)) /\ WF_vars(IdleExpire(c))
+Fair == \A c \in Conns : WF_vars(Return(c)) /\ WF_vars(IdleExpire(c)) /\ WF_vars(DataIdleExpire(c))
 Spec == Init /\ [][Next]_vars /\ Fair /\ WF_vars(Tick)
 
 \* ---- properties -------------------------------------------------------------------
@@ -96,5 +134,5 @@ ProcessSurvives == procAlive                                                    
 Quiescent == \A c \in Conns : phase[c] \in {"idle", "returned"}
 ReleasedWhenQuiescent == Quiescent => \A c \in Conns : res[c] = {}                    \* C09
 ReturnsAfterPeerGone == \A c \in Conns : (phase[c] = "peergone") ~> (phase[c] = "returned")   \* C09 (liveness)
-SilentPeersExpire == \A c \in Conns : (phase[c] \in {"routing", "handling"} /\ quiet[c]) ~> (phase[c] \in {"peergone", "returned"} \/ ~procAlive)
+SilentPeersExpire == \A c \in Conns : (phase[c] \in {"routing", "handling", "transfer"} /\ quiet[c]) ~> (phase[c] \in {"peergone", "returned"} \/ ~procAlive)
 =============================================================================
